@@ -427,6 +427,15 @@ def oracle(c, o):
             if t != want and t != want_all:
                 bad.append(("identify", dict(what="assigned taxon is not the LCA of the taxa of all references within min(observed distance, |best match| - 1) of the best matches",
                                              assigned=t, expected=want, best=best, distance=dmin)))
+            # the loader of the command (CLIAssignTaxonomy: tables, taxa, references of unknown taxid discarded) must hand the
+            # search the same database: same taxon as Identify called on the database directly
+            ck = o.get("clikind")
+            if ck and ck != "ok":
+                bad.append(("identify", dict(what="obitag.CLIAssignTaxonomy on the same database plus one reference of unknown taxid: " + ck)))
+            elif ck == "ok" and o.get("taxid3") != t:
+                bad.append(("identify", dict(what="obitag.CLIAssignTaxonomy (database loader of the command; one more reference whose taxid is unknown to the "
+                                             "taxonomy, discarded with a warning) does not assign the taxon Identify assigns on the same references",
+                                             assigned_by_command=o.get("taxid3"), best_match_of_command=o.get("best3"), assigned_by_identify=t, best=best, distance=dmin)))
             if t not in parent or not all(is_anc(parent, t, tx[j]) for j in best):
                 bad.append(("identify", dict(what="assigned taxon is not an ancestor-or-self of the taxon of every best match",
                                              assigned=t, best=best, best_taxids=[tx[j] for j in best])))
